@@ -85,4 +85,49 @@ def run (stop : Option Nat) (lat gs : Nat) : St → List Outcome → List Ev
 def connects (evs : List Ev) : List Nat := evs.filterMap fun | .connect t => some t | _ => none
 def returnedAt (evs : List Ev) : Option Nat := evs.findSome? fun | .returned t => some t | _ => none
 
+/-! ### the connections of a run -/
+
+/-- a connection is established / closed by the ESME -/
+inductive CEv where
+  | opened (t : Nat)
+  | closed (t : Nat)
+  deriving DecidableEq, Repr, Inhabited
+
+/-- the connect cycles again, observing the connections: one is established when `open_connection` returns (not when it
+    fails or hangs); it is closed at the end of its cycle - when the bind failed, when the tasks of the session have ended -
+    or by stop(): at once when the session is bound, right after the bind when stop() came earlier -/
+-- (`early`: see the grace period below)
+def conns (stop : Option Nat) (early : Bool) : St → List Outcome → List CEv
+  | _, [] => []
+  | s, o :: rest =>
+    match o with
+    | .connFail d =>
+      let r := afterCycle stop { s with t := s.t + d }
+      (match r.2 with
+        | some _ => []
+        | none => conns stop early r.1 rest)
+    | .bindFail d =>
+      let r := afterCycle stop { s with t := s.t + d }
+      .opened s.t :: .closed (s.t + d) :: (match r.2 with
+        | some _ => []
+        | none => conns stop early r.1 rest)
+    | .session c d g =>
+      let b := s.bo.reset
+      let tb := s.t + c
+      if stopped stop tb then [.opened tb, .closed tb]
+      else
+        match stop with
+        | some ts =>
+          if ts < tb + d then [.opened tb, .closed ts]
+          else
+            -- stop() while the tasks of a session that ended by itself are still ending closes the connection at once when
+            -- it can still be written to (`early`: the peer closed, unbound or sent garbage), not when the peer reset it
+            let r := afterCycle stop { t := tb + d + g, bo := b }
+            .opened tb :: .closed (if early then min ts (tb + d + g) else tb + d + g) :: (match r.2 with
+              | some _ => []
+              | none => conns stop early r.1 rest)
+        | none =>
+          let r := afterCycle stop { t := tb + d + g, bo := b }
+          .opened tb :: .closed (tb + d + g) :: conns stop early r.1 rest
+
 end SmppVerif.Supervisor
